@@ -457,24 +457,43 @@ func runParent(ck *Check, tier string, seed int64, nproc int, budget time.Durati
 	// and either way the rest of that worker's shard has to be accounted for.
 	var confirmed []Violation
 	lostShards := 0
+	// the replays of the fatal cases of different workers are independent: run them side by side (a change that
+	// makes many cases slow ends every worker with a fatal event, and each replay may take minutes)
+	fatalOf := make([]*Violation, len(outs))
+	repro := make([]bool, len(outs))
+	var cwg sync.WaitGroup
 	for k, o := range outs {
 		if o.Fatal == "" {
 			continue
 		}
-		var fv *Violation
 		for i := range o.Viol {
 			if strings.HasPrefix(o.Viol[i].Key, "fatal/") {
-				fv = &o.Viol[i]
+				fatalOf[k] = &o.Viol[i]
 			}
 		}
-		reproduced := fv != nil
-		for i := 0; i < 2 && reproduced; i++ {
-			cmd := exec.Command(self, "-prop", ck.Prop, "-tier", tier, "-replay", fmt.Sprintf("%s:%d", fv.Sub, fv.CaseNo))
-			cmd.Env = os.Environ()
-			if cmd.Run() == nil {
-				reproduced = false
-			}
+		if fatalOf[k] == nil {
+			continue
 		}
+		repro[k] = true
+		cwg.Add(1)
+		go func(k int, fv *Violation) {
+			defer cwg.Done()
+			for i := 0; i < 2 && repro[k]; i++ {
+				cmd := exec.Command(self, "-prop", ck.Prop, "-tier", tier, "-replay", fmt.Sprintf("%s:%d", fv.Sub, fv.CaseNo))
+				cmd.Env = os.Environ()
+				if cmd.Run() == nil {
+					repro[k] = false
+				}
+			}
+		}(k, fatalOf[k])
+	}
+	cwg.Wait()
+	for k, o := range outs {
+		if o.Fatal == "" {
+			continue
+		}
+		fv := fatalOf[k]
+		reproduced := repro[k]
 		if reproduced {
 			confirmed = append(confirmed, *fv)
 			lostShards++ // the cases of this shard behind the fatal one were not run
